@@ -523,6 +523,12 @@ fn deep_cut_catalog() -> Vec<ZoneSpec> {
     recs.push(rec("ns.d3.f.e.t.", t::A, cl, 46, &a_rdata(4)));
     recs.push(rec("ns.d3.f.e.t.", t::AAAA, cl, 47, &aaaa_rdata(4)));
     recs.push(rec("h.g.e.t.", t::A, cl, 48, &a_rdata(5)));
+    // a delegation whose name server is the delegation point itself (glue at
+    // the cut), one and two labels below the apex
+    recs.push(rec("self.t.", t::NS, cl, 50, &wname("self.t.")));
+    recs.push(rec("self.t.", t::A, cl, 51, &a_rdata(6)));
+    recs.push(rec("self.e.t.", t::NS, cl, 52, &wname("SELF.e.t.")));
+    recs.push(rec("self.e.t.", t::AAAA, cl, 53, &aaaa_rdata(7)));
     recs.push(rec("mx.t.", t::MX, cl, 49, &mx_rdata(1, &wname("h.g.e.t."))));
     recs.push(rec("mx.t.", t::MX, cl, 49, &mx_rdata(2, &wname("ns.d2.e.t.")))); // target below a cut
     vec![ZoneSpec { apex: wname("t."), class: cl, recs }]
